@@ -153,6 +153,10 @@ let kind_of_tag (t : string) : kind =
       KRewire (List.map (fun s -> match split '.' s with
         | [a; b] -> (nat_of_int (int_of_string a), n_of_int (int_of_string b))
         | _ -> failwith "bad rewire range") (list_field ',' arg))
+  | "memport" -> (match split '.' arg with
+      | [a; b] -> KMemPort (n_of_int (int_of_string a), n_of_int (int_of_string b))
+      | _ -> failwith "bad memport")
+  | "memory" -> KMemory (n_of_int (int_of_string arg))
   | _ -> KOther
 
 let parse_out s : outport =
